@@ -14,7 +14,7 @@ from ..dag import T, walk, show, deep_inline, simplify
 from ..model import FunctionInfo, AnalysisError, dotted
 from ..report import Ctx
 from ..tensor import Typer, MASKS, kwarg_t, const_int
-from ..util import cmp_views, norm, fn_body_nodes, walk_local, kwarg
+from ..util import arg_nodes, arg_texts, cmp_views, norm, fn_body_nodes, walk_local, kwarg
 from ..pat import Snips
 from .common import arg_permutation_rule, names_in, calls_named, converged_from_counter
 
@@ -574,7 +574,7 @@ def vi_dict(ctx: Ctx):
     dd = SW.find("DictDistribution({a: 1 / len(max_actions) for a in max_actions})", {"max_actions": g[0]["max_actions"]} if g else None)
     ctx.check(bool(dd), "DICT-5", w, dd[0][0] if dd else w.node, f"{who}: policy uniform over the greedy set", "", "policy is not uniform over the greedy set")
     r = [n for n in fn_body_nodes(w) if isinstance(n, ast.Return) and isinstance(n.value, ast.Call)]
-    kws = {k.arg: k.value for k in r[0].value.keywords} if r else {}
+    kws = arg_nodes(r[0].value) if r else {}
     svk = ast.unparse(kws["state_value"]) if "state_value" in kws else None
     ok = "initial_value" in kws and SW.m(f"sum([sv[s] * p for s, p in {wm}.initial_state_dist().items()])", kws["initial_value"], {"sv": svk}) is not None
     ctx.check(ok if ok else None, "DICT-5", w, w.node, f"{who}: initial_value from the reported table", "", "idiom not recognised")
